@@ -1329,6 +1329,39 @@ pub fn run(suite: &str, thorough: bool, seed: u64, shard: usize, nshards: usize,
                 "1.5", "-3", "+.5f", "\"s\"", "\"unterminated", "/* open", "// line", "é", "日本", "\u{3000}", "#", "$", "\\",
                 "/**/", "/***/", "/** doc */", "*/", "/", "*", "99999999999", "4294967295", "4294967296",
             ];
+            // every word of every lexer entry with a finite language (written by the translator from
+            // THIS run's lexer table: keywords, punctuation, the direction words) in every syntactic
+            // slot of a few fixed frames
+            if shard == 0 {
+                let path = concat!(env!("CARGO_MANIFEST_DIR"), "/../lean/AidlVerif/Gen/lexwords.txt");
+                let words: Vec<String> = std::fs::read_to_string(path)
+                    .map(|t| t.lines().filter_map(|l| l.split('\t').nth(1).map(|w| w.to_owned())).collect())
+                    .unwrap_or_default();
+                let frames = [
+                    "package p; interface I { void f(@ int x); }",
+                    "package p; interface I { void f(in @ x); }",
+                    "package p; interface I { void f(@ x, out @[] y); }",
+                    "package p; interface I { void @(); }",
+                    "package p; interface I { @ int f(); }",
+                    "package p; interface I { const int X = @; }",
+                    "package p; parcelable P { @ x; }",
+                    "package p; parcelable P { int @ = 1; }",
+                    "package p; enum E { @, B = @ }",
+                    "package @; interface I {}",
+                    "package p; import @.Q; @ I {}",
+                    "@",
+                ];
+                let mut seen = std::collections::BTreeSet::new();
+                for w in words.iter() {
+                    if !seen.insert(w.clone()) {
+                        continue;
+                    }
+                    for fr in frames.iter() {
+                        let sd = rng.next();
+                        em.case(sd, parse_case(&vec![("f".to_owned(), fr.replace('@', w))], vec![]));
+                    }
+                }
+            }
             let n = share(if thorough { 40000 } else { 600 });
             for i in 0..n {
                 let sd = rng.next();
